@@ -59,6 +59,7 @@ func main() {
 	reps := fs.Int("reps", 1, "repetitions (par)")
 	summary := fs.String("summary", "", "write corpus classification summary here (gen)")
 	lifetimes := fs.Bool("lifetimes", false, "the tree uses finalizers/cleanups/weak/unique (run) or: enable the GC fault (gen)")
+	sweep := fs.Bool("sweep", false, "systematic single-preemption sweep batch (gen)")
 	soak := fs.Int("soak", -1, "soak batch: force ecosystem number N (mod count) in every run (gen)")
 	reverse := fs.Bool("reverse", false, "evaluate cases and operations in reverse order (ref)")
 	budget := fs.Uint64("opbudget", 4_000_000, "per-operation step budget")
@@ -86,6 +87,7 @@ func main() {
 			}
 		}
 		g.Lifetimes = *lifetimes
+		g.Sweep = *sweep
 		b := harness.Batch{Seed: *seed, Tier: *tier, Batch: *batch}
 		for i := *from; i < *to; i++ {
 			sp := g.Spec(*seed, i)
